@@ -45,8 +45,8 @@ func key(c *out.Call, clause string) string {
 			return "C05/" + entry(c) + "/name:marshaled-foreign-namespace-stanza-local"
 		}
 	case "id", "from", "attrs", "attr-order":
-		if out.HasNamespacedIDFrom(c.Expect) {
-			return "C05/" + entry(c) + "/attrs:namespaced-id-or-from"
+		if out.NamespacedEmptyID(c) {
+			return "C05/" + entry(c) + "/attrs:namespaced-empty-id"
 		}
 	}
 	return k
